@@ -531,18 +531,29 @@ class GeckoAsyncSpaMan(ABC, AsyncTasks):
         try:
             while True:
 
-                if (
-                    self.spa_state == GeckoSpaState.IDLE
-                    and self._spa_descriptors is None
-                ):
-                    await self.async_locate_spas(self._spa_address)
+                try:
+                    if (
+                        self.spa_state == GeckoSpaState.IDLE
+                        and self._spa_descriptors is None
+                    ):
+                        await self.async_locate_spas(self._spa_address)
 
-                if (
-                    self.spa_state == GeckoSpaState.LOCATED_SPAS
-                    and self._spa_identifier is not None
-                    and self._facade is None
-                ):
-                    await self.async_connect(self._spa_identifier, self._spa_address)
+                    if (
+                        self.spa_state == GeckoSpaState.LOCATED_SPAS
+                        and self._spa_identifier is not None
+                        and self._facade is None
+                    ):
+                        await self.async_connect(
+                            self._spa_identifier, self._spa_address
+                        )
+
+                except asyncio.CancelledError:
+                    raise
+
+                except Exception:  # pylint: disable=broad-except
+                    # For example a reset that lands in the middle of a connection
+                    # attempt. Never let that stop the pump, the next turn retries
+                    _LOGGER.exception("Exception in sequence pump, carrying on")
 
                 await asyncio.sleep(GeckoConstants.ASYNCIO_SLEEP_TIMEOUT_FOR_YIELD)
 
